@@ -15,7 +15,7 @@ VERIF = os.path.dirname(HERE)
 PY = '/venv/bin/python'
 BASE_PATH = '/venv/bin:/usr/bin:/bin'
 
-STUB_TOOLS = ('cc', 'c++', 'ar', 'simtool', 'ninja')
+STUB_TOOLS = ('cc', 'c++', 'ar', 'simtool', 'ninja', 'patchelf')
 MSVC_TOOLS = ('cl', 'link', 'lib')
 
 
